@@ -337,6 +337,15 @@ def _run(rep, tier, seed, focus, acts_for_sim):
         # conversion - in-place update - conversion: histories of in-place operators alone, on operands in m, cm (Array and Vector) and s
         recs = tlc_emit(rep, "alias-iop-depth3", ["iop", "to"], 3 if tier == "quick" else 4, ops=["add", "mul"], objs=[1, 5, 7, 2])
         replay_records(rep, recs, focus, "alias-iop", seed=seed)
+        # the same Vector laid out as the columns of one 2-D table: slices of it, in-place updates of the slices and of the
+        # whole by the number 2 and by pool objects - rows outside a slice must not move whatever the memory layout is
+        from . import containers_world
+        containers_world.POOL_TABLE = True
+        try:
+            recs = tlc_emit(rep, "alias-table", ["slice", "iop", "to"], 3, idx=["i0", "s02", "s_2", "srev", "mask"], ops=["add", "mul", "div"], objs=[5, 7, 11, 12])
+            replay_records(rep, recs, focus, "alias-table", sample_cap=60000 if tier == "quick" else None, seed=seed)
+        finally:
+            containers_world.POOL_TABLE = False
     # 2. all actions together, shallow (cross-feature interactions)
     recs = tlc_emit(rep, "all-bfs-depth2", ALL_ACTS, 2)
     replay_records(rep, recs, focus, "all-bfs", sample_cap=20000 if tier == "quick" else None, seed=seed)
